@@ -296,6 +296,24 @@ def run(tier: str) -> int:
             stats["prefixes"] += 1
             cases.append((f"t{ti}:prefix{k}", recs[:k], runs, launches))
             check_prefix(rep, t, recs, k, runs, launches)
+        # --- a tailing viewer: one aggregator, finalised after every record, must agree with a fresh one on each prefix
+        for order_label, order in (("chronological", recs), ("shuffled", rnd.sample(recs, len(recs)))):
+            tail = Agg()
+            for k, r in enumerate(order):
+                tail.ingest(r)
+                stats["tailing_steps"] = stats.get("tailing_steps", 0) + 1
+                got = ([run_view(tail.finalize_run(x)) for x in runs], [launch_view(tail.finalize_launch(l, at)) for (l, at) in launches])
+                fresh = Agg()
+                fresh.ingest_many(order[:k + 1])
+                want = ([run_view(fresh.finalize_run(x)) for x in runs], [launch_view(fresh.finalize_launch(l, at)) for (l, at) in launches])
+                if got != want:
+                    fld = next((k2 for part in (0, 1) for x, y in zip(got[part], want[part]) for k2 in x if x[k2] != y.get(k2)), "?")
+                    rep.add_violation(f"finalize-then-ingest:{order_label}:{fld}",
+                                      "an aggregator that was finalised before the last records arrived reports a verdict that differs from a fresh "
+                                      "aggregator given the same records (the verdict depends on when finalize was called, not on the set of records)",
+                                      {"trace": t["info"], "order": order_label, "records_ingested": k + 1, "tailing": got, "fresh": want,
+                                       "records": order[:k + 1]})
+                    break
         # --- order independence on the real code
         base = real_verdicts(recs, runs, launches)
         for p in range(n_perm):
